@@ -1,3 +1,4 @@
+OVERLAY = ['codec']   # overlay wrapper groups this property's harnesses call (overlay/<pkg>/zz_vp_<tag>.go)
 HARNESSES = {
     'BlendPremul': dict(inproc_ms=300),
     'Palette': dict(quick=dict(params={'n': 2}), thorough=dict(params={'n': 8})),
